@@ -5,7 +5,7 @@ pre-state, (2) states ``requires`` with ``c.require``, (3) runs the REAL functio
 (extracted from /repo) with ``c.call`` / ``c.outcome`` and (4) states the named
 postconditions with ``c.ensure``.  The explorer re-runs the contract once per execution
 path of the real code; every ``ensure`` on every path is one proof obligation
-``pc /\ requires => post`` discharged by z3 (cvc5 takes z3's unknowns).
+``pc and requires => post`` discharged by z3 (cvc5 takes z3's unknowns).
 """
 from __future__ import annotations
 
@@ -181,6 +181,7 @@ class Case:
         """The path must not end in an exception (under the stated requires)."""
         if out.raised is not None:
             self.pending.append(("noexc", f"{label}[{out.raised}]", z3.BoolVal(False), list(self.ex.pc)))
+            self.info["exception_detail"] = str(out.detail)[:200]
             raise _PathDone()
 
     def expect_raise(self, out: Outcome, exc, label="raises"):
@@ -353,6 +354,7 @@ def verify_contract(cdef: ContractDef, timeout_ms=10000, want_smt2=1) -> Contrac
         res.reason = f"extraction: {e}"
         res.wall_s = round(time.time() - t0, 3)
         return res
+    sym.reset_mod_caches()
     ex = Explorer()
     interp_box = {}
     smt_budget = [want_smt2]
@@ -378,6 +380,8 @@ def verify_contract(cdef: ContractDef, timeout_ms=10000, want_smt2=1) -> Contrac
     except Unsupported as e:
         res.status = "unsupported"
         res.reason = f"Unsupported: {e}"
+        if os.environ.get("PYVC_DEBUG"):
+            traceback.print_exc()
         res.wall_s = round(time.time() - t0, 3)
         return res
     except RecursionError:
